@@ -20,6 +20,7 @@ import (
 	"runtime"
 	"runtime/debug"
 	"strings"
+	"sync"
 	"syscall"
 	"time"
 
@@ -58,10 +59,11 @@ type jLog struct {
 }
 
 type jCase struct {
-	Kind  string `json:"kind"` // "def" | "decode"
-	Def   *jDef  `json:"def,omitempty"`
-	Logs  []jLog `json:"logs,omitempty"`
-	Bytes string `json:"bytes,omitempty"`
+	Kind  string  `json:"kind"` // "def" | "decode" | "batch"
+	Defs  []*jDef `json:"defs,omitempty"`
+	Def   *jDef   `json:"def,omitempty"`
+	Logs  []jLog  `json:"logs,omitempty"`
+	Bytes string  `json:"bytes,omitempty"`
 }
 
 func hx(b []byte) string { return hex.EncodeToString(b) }
@@ -756,12 +758,187 @@ func runDecode(run *vh.Run, b []byte, fromMarshal bool) (*jDef, string) {
 	return got, cls
 }
 
+// runBatch is the round trip the way a caller with several definitions does it: encode all of
+// them first (every returned slice is kept, with a private copy taken right after the call),
+// then decode every retained slice and compare with its original; then the same from several
+// goroutines at once. Only definitions that validate are put in a batch.
+func runBatch(run *vh.Run, defs []*jDef, logs []jLog) {
+	id := run.NextID()
+	c := jCase{Kind: "batch", Defs: defs, Logs: logs}
+	reals := make([]*shutterservice.EventTriggerDefinition, len(defs))
+	for i, d := range defs {
+		reals[i] = d.build()
+		if reals[i].Validate() != nil {
+			panic("runBatch: invalid definition in a batch")
+		}
+	}
+	encs := make([][]byte, len(defs))
+	copies := make([][]byte, len(defs))
+	if p, msg := vh.Guard(func() {
+		for i := range defs {
+			encs[i] = reals[i].MarshalBytes()
+			copies[i] = append([]byte(nil), encs[i]...)
+		}
+	}); p {
+		run.Violate(vh.Violation{Key: "C17:marshal-panic-on-valid-definition", What: "MarshalBytes panicked in a batch: " + msg, Case: c})
+		return
+	}
+	for i := range defs {
+		if !bytes.Equal(encs[i], copies[i]) {
+			run.Violate(vh.Violation{Key: "C17:roundtrip:marshal-result-overwritten-by-later-call",
+				What: fmt.Sprintf("the bytes returned by MarshalBytes for definition %d of the batch changed after later MarshalBytes calls (the result aliases memory that is reused)", i),
+				Case: c, Observed: hx(encs[i]), Expected: hx(copies[i])})
+			break
+		}
+	}
+	obs := make([]string, len(defs))
+	var decoded0 *shutterservice.EventTriggerDefinition
+	for i, d := range defs {
+		var got shutterservice.EventTriggerDefinition
+		var err error
+		if p, msg := vh.Guard(func() { err = got.UnmarshalBytes(encs[i]) }); p {
+			run.Violate(vh.Violation{Key: "C17:unmarshal-panic", What: "UnmarshalBytes panicked: " + msg, Case: c})
+			return
+		}
+		cls := classify(run, err)
+		obs[i] = cls
+		if cls != "ok" {
+			run.Violate(vh.Violation{Key: "C17:roundtrip-decode-fails", What: fmt.Sprintf("definition %d of a batch that was encoded before any decoding does not decode from the bytes MarshalBytes returned for it (%s)", i, cls), Case: c, Observed: hx(encs[i]), Expected: hx(copies[i])})
+			continue
+		}
+		gd := defOf(&got)
+		obs[i] = vh.CApp("UOk", coqDef(gd))
+		if !sameDef(gd, d) {
+			run.Violate(vh.Violation{Key: "C17:roundtrip-differs", What: fmt.Sprintf("definition %d of a batch that was encoded before any decoding decodes to a different definition", i), Case: c, Observed: gd, Expected: d})
+		}
+		if i == 0 {
+			decoded0 = &got
+		}
+	}
+	// the decoded first definition must answer every log like the original
+	if decoded0 != nil {
+		for _, l := range logs {
+			lg := l.build()
+			var a, b bool
+			var ea, eb error
+			pa, _ := vh.Guard(func() { a, ea = reals[0].Match(lg) })
+			pb, _ := vh.Guard(func() { b, eb = decoded0.Match(lg) })
+			if pa != pb || a != b || (ea == nil) != (eb == nil) {
+				run.Violate(vh.Violation{Key: "C17:roundtrip-differs", What: "the first definition of a batch, decoded after the whole batch was encoded, matches a log differently from the original", Case: c, Observed: b, Expected: a})
+			}
+		}
+	}
+	// concurrent encoders: each goroutine checks its own result after yielding
+	var mu sync.Mutex
+	bad := -1
+	var wg sync.WaitGroup
+	for g := range defs {
+		wg.Add(1)
+		go func(g int) {
+			defer wg.Done()
+			defer func() { recover() }()
+			for it := 0; it < 20; it++ {
+				e := reals[g].MarshalBytes()
+				cp := append([]byte(nil), e...)
+				runtime.Gosched()
+				var got shutterservice.EventTriggerDefinition
+				if !bytes.Equal(e, cp) || got.UnmarshalBytes(e) != nil || !sameDef(defOf(&got), defs[g]) {
+					mu.Lock()
+					if bad < 0 {
+						bad = g
+					}
+					mu.Unlock()
+					return
+				}
+			}
+		}(g)
+	}
+	wg.Wait()
+	if bad >= 0 {
+		run.Violate(vh.Violation{Key: "C17:roundtrip:concurrent-marshal-interferes", What: fmt.Sprintf("with one goroutine per definition calling MarshalBytes, the result for definition %d changed or no longer decodes to it after a yield", bad), Case: c})
+	}
+	run.Dist[fmt.Sprintf("batch:size=%d", len(defs))]++
+	ds := make([]string, len(defs))
+	for i, d := range defs {
+		ds[i] = coqDef(d)
+	}
+	key, _ := json.Marshal(c)
+	sum := sha256.Sum256(key)
+	run.AddCase(id, vh.CApp("CBatch", vh.CN(id), vh.CList(ds), vh.CList(obs)), c, hx(sum[:]), len(defs) >= 2)
+}
+
+// genValidDef draws definitions until one validates.
+func genValidDef(r *vh.RNG) *jDef {
+	for {
+		d := genDef(r)
+		if d.build().Validate() == nil {
+			return d
+		}
+	}
+}
+
+func cloneDef(d *jDef) *jDef {
+	b, _ := json.Marshal(d)
+	var out jDef
+	json.Unmarshal(b, &out)
+	return &out
+}
+
+// genBatch: 2..8 valid definitions of mixed and equal encoded lengths, including neighbours that
+// differ in one argument byte, in the contract only, or in one integer argument.
+func genBatch(r *vh.RNG) []*jDef {
+	k := 2 + r.Intn(7)
+	var out []*jDef
+	for len(out) < k {
+		d := genValidDef(r)
+		out = append(out, d)
+		for len(out) < k && r.Chance(1, 2) {
+			v := cloneDef(d)
+			switch r.Intn(3) {
+			case 0:
+				if v.Contract == addrA {
+					v.Contract = addrB
+				} else {
+					v.Contract = addrA
+				}
+			case 1:
+				for i := range v.Preds {
+					if len(v.Preds[i].Bytes) == 1 && len(v.Preds[i].Bytes[0]) > 0 {
+						b := unhx(v.Preds[i].Bytes[0])
+						b[len(b)-1] ^= 0x10
+						b[len(b)-1] |= 0x80 // keep the RLP form (never a single byte below 0x80)
+						v.Preds[i].Bytes[0] = hx(b)
+						break
+					}
+				}
+			case 2:
+				for i := range v.Preds {
+					if len(v.Preds[i].Ints) == 1 && v.Preds[i].Ints[0] != nil {
+						z, _ := new(big.Int).SetString(*v.Preds[i].Ints[0], 10)
+						if z.Cmp(big.NewInt(200)) > 0 {
+							z.Xor(z, big.NewInt(1))
+							v.Preds[i].Ints[0] = sp(z)
+						}
+						break
+					}
+				}
+			}
+			if v.build().Validate() == nil {
+				out = append(out, v)
+			}
+		}
+	}
+	return out
+}
+
 func runCase(run *vh.Run, c jCase) {
 	switch c.Kind {
 	case "def":
 		runDef(run, c.Def, c.Logs)
 	case "decode":
 		runDecode(run, unhx(c.Bytes), false)
+	case "batch":
+		runBatch(run, c.Defs, c.Logs)
 	default:
 		panic("unknown case kind " + c.Kind)
 	}
@@ -1471,7 +1648,7 @@ func main() {
 	run := vh.Start("Verif.Corr.C17", 120)
 	defer run.Finish()
 	run.SetPreamble("From Verif Require Import Lib.Rlp Model.TriggerDef.\nOpen Scope list_scope.\n" + initNamed())
-	run.Rule = "definition cases: a generated definition (all operators, topic/static/dynamic references, 0..4 and occasionally up to 12 predicates, boundary integers, one in seven deliberately invalid) with logs aimed at it (values equal/adjacent to the arguments, well-formed ABI tails, then truncations and hostile pointers/lengths up to 2^64-1; forced resource probes: static and dynamic references 2^10..2^32-5 words into the data against logs with 0/32/40 data bytes, bytes allocated per Match (runtime TotalAlloc delta, minimum of up to 5 repetitions) against (predicates+1)*(8*len(data)+1024)+4096; definitions referring more than 2^22 words into the data are matched in a child process under RLIMIT_AS 3 GiB and a 60 s watchdog, a dead child is a violation); non-trivial = valid definition with at least one predicate, at least one log that matched and at least one rejected by a predicate. decoder cases: real encodings, 22 structural/canonical-form mutations written with an independent RLP writer, bit flips, truncations, trailing bytes, wrong versions, random bytes; non-trivial = got past the version byte into the RLP decoder with more than 24 bytes, or decoded. distinct by canonical JSON of the case"
+	run.Rule = "definition cases: a generated definition (all operators, topic/static/dynamic references, 0..4 and occasionally up to 12 predicates, boundary integers, one in seven deliberately invalid) with logs aimed at it (values equal/adjacent to the arguments, well-formed ABI tails, then truncations and hostile pointers/lengths up to 2^64-1; forced resource probes: static and dynamic references 2^10..2^32-5 words into the data against logs with 0/32/40 data bytes, bytes allocated per Match (runtime TotalAlloc delta, minimum of up to 5 repetitions) against (predicates+1)*(8*len(data)+1024)+4096; definitions referring more than 2^22 words into the data are matched in a child process under RLIMIT_AS 3 GiB and a 60 s watchdog, a dead child is a violation); non-trivial = valid definition with at least one predicate, at least one log that matched and at least one rejected by a predicate. batch cases: 2..8 valid definitions (mixed and equal encoded lengths, neighbours differing in one argument byte / the contract / one integer) all encoded before any is decoded, every returned slice compared with a copy taken right after its call, each decoded and compared with its original, the first decoded definition matched against logs, then one goroutine per definition marshalling concurrently (oracle only); decoder cases: real encodings, 22 structural/canonical-form mutations written with an independent RLP writer, bit flips, truncations, trailing bytes, wrong versions, random bytes; non-trivial = got past the version byte into the RLP decoder with more than 24 bytes, or decoded. distinct by canonical JSON of the case"
 	if run.Replay != "" {
 		var c jCase
 		if err := run.LoadReplay(&c); err != nil {
@@ -1507,6 +1684,28 @@ func main() {
 			logs = append(logs, genLog(run.RNG, d))
 		}
 		runDef(run, d, logs)
+	}
+	// batches: encode several definitions before decoding any
+	{
+		h := unhx(hashes[0])
+		h2 := append([]byte(nil), h...)
+		h2[31] ^= 1
+		tEq := func(c string, arg []byte) *jDef {
+			return &jDef{Contract: c, Preds: []jPred{{Off: 1, Op: 5, Ints: []*string{}, Bytes: []string{hx(arg)}}}}
+		}
+		u := func(z int64) *jDef {
+			return &jDef{Contract: addrA, Preds: []jPred{{Off: 4, Op: 3, Ints: []*string{sp(big.NewInt(z))}, Bytes: []string{}}}}
+		}
+		lg := []jLog{{Addr: addrA, Topics: []string{hashes[0], hashes[0]}, Data: hx(wordU(1001))}, {Addr: addrB, Topics: []string{hashes[0], hx(h2)}, Data: ""}}
+		runBatch(run, []*jDef{tEq(addrA, h), tEq(addrA, h2)}, lg)                      // same length, one argument byte differs
+		runBatch(run, []*jDef{tEq(addrA, h), tEq(addrB, h)}, lg)                       // same length, contract differs
+		runBatch(run, []*jDef{u(1000), u(1001)}, lg)                                   // same length, threshold differs
+		runBatch(run, []*jDef{tEq(addrA, h), {Contract: addrA, Preds: []jPred{}}}, lg) // long then short
+		runBatch(run, []*jDef{{Contract: addrB, Preds: []jPred{}}, tEq(addrA, h), u(5), tEq(addrB, h2), u(1 << 40), {Contract: addrA, Preds: []jPred{}}, u(1000), tEq(addrA, h2)}, lg)
+	}
+	for i, n := 0, run.Scale(300, 3000); i < n; i++ {
+		ds := genBatch(run.RNG)
+		runBatch(run, ds, []jLog{genLog(run.RNG, ds[0]), genLog(run.RNG, ds[0])})
 	}
 	nb := run.Scale(5000, 100000)
 	for i := 0; i < nb; i++ {
